@@ -48,15 +48,15 @@ func eqSeq(a, b []string) bool {
 // readerFacts collects the values of Reader.Read the gate rules talk about.
 type readerFacts struct {
 	fn       *ssa.Function
-	frame    ssa.Value     // the frame being parsed (receiver of unmarshal)
-	unm      *ssa.Call     // unmarshal call
-	mp       ssa.Value     // DialectRW.GetMessage(...) result
-	mpIf     *ssa.If       // if mp != nil
-	decode   *ssa.Call     // mp.Read(...)
-	sumIf    *ssa.If       // checksum comparison
-	sumTrue  bool          // polarity: true edge = mismatch
-	inKeyIf  *ssa.If       // r.InKey != nil
-	sigIf    *ssa.If       // signature comparison
+	frame    ssa.Value // the frame being parsed (receiver of unmarshal)
+	unm      *ssa.Call // unmarshal call
+	mp       ssa.Value // DialectRW.GetMessage(...) result
+	mpIf     *ssa.If   // if mp != nil
+	decode   *ssa.Call // mp.Read(...)
+	sumIf    *ssa.If   // checksum comparison
+	sumTrue  bool      // polarity: true edge = mismatch
+	inKeyIf  *ssa.If   // r.InKey != nil
+	sigIf    *ssa.If   // signature comparison
 	v2       *ssa.TypeAssert
 	v2If     *ssa.If
 	sigNilIf *ssa.If
@@ -394,8 +394,7 @@ func ruleRejections(c *Ctx, rf *readerFacts, rule string) {
 			if len(ret.Results) != 1 || isNilConst(ret.Results[0]) {
 				continue
 			}
-			s := ex(ret.Results[0])
-			if strings.HasPrefix(s, "frame.peekAndDiscard(") || strings.HasPrefix(s, "io.ReadFull(") {
+			if transportError(ret.Results[0], 0) {
 				continue // transport / truncation error
 			}
 			// explicit rejection: only the incompatibility-flag test
@@ -412,4 +411,38 @@ func ruleRejections(c *Ctx, rf *readerFacts, rule string) {
 		r.Check(bad == "", rule, name+" rejections", c.Pos(um.Pos()), "rejects only truncated input"+map[bool]string{true: " or unknown incompatibility flags", false: ""}[name == "V2Frame.unmarshal"],
 			"unmarshal rejects a frame at "+bad+" under a condition the spec does not name")
 	}
+}
+
+// transportError: v is (a phi / interface wrapping of) the error result of a stream-consuming call
+// (peekAndDiscard, Peek, io.ReadFull, ReadByte), possibly nil on some edges.
+func transportError(v ssa.Value, depth int) bool {
+	if depth > 6 {
+		return false
+	}
+	switch x := v.(type) {
+	case *ssa.Extract:
+		if call, ok := x.Tuple.(*ssa.Call); ok {
+			switch calleeName(&call.Call) {
+			case "frame.peekAndDiscard", "io.ReadFull", "(bufio.Reader).Peek", "(bufio.Reader).ReadByte", "(bufio.Reader).Discard":
+				return true
+			}
+		}
+	case *ssa.Phi:
+		any := false
+		for _, e := range x.Edges {
+			if isNilConst(e) {
+				continue
+			}
+			if !transportError(e, depth+1) {
+				return false
+			}
+			any = true
+		}
+		return any
+	case *ssa.MakeInterface:
+		return transportError(x.X, depth+1)
+	case *ssa.ChangeInterface:
+		return transportError(x.X, depth+1)
+	}
+	return false
 }
